@@ -56,6 +56,9 @@ pub fn run(args: &[String]) {
     // "upserts": the mix also contains put_or_update calls that are valid whether or not the key is present (they always
     // carry a value; a time-to-live or a weight now and then); only panics and hangs are judged in this mode
     let upserts = args.get(3).map(|s| s == "upserts").unwrap_or(false);
+    // "nottl": no time-to-live at all, so a key that reads as absent while nothing is pending cannot be an expired one;
+    // at quiescence such a key must not be rejected as already existing
+    let nottl = args.get(3).map(|s| s == "nottl").unwrap_or(false);
     crate::sched::install_panic_hook();
     const KEYS: u64 = 4;
 
@@ -113,6 +116,7 @@ pub fn run(args: &[String]) {
                 let v = rng.next() % 1000;
                 let op = if upserts && rng.below(3) == 0 { 10 + rng.below(3) } else { rng.below(10) };
                 let attempt = std::panic::catch_unwind(std::panic::AssertUnwindSafe(|| match op {
+                    0 | 1 | 2 if nottl => cache.put_with_weight(SlowKey(k), v, match rng.below(3) { 0 => 5 + rng.below(10), 1 => 30 + rng.below(10), _ => 60 + rng.below(41) } as i64).ok(),
                     0 | 1 | 2 => {
                         // light, medium and heavy keys: a heavy put may have to evict everything it can see
                         let w = match rng.below(4) { 0 => 5 + rng.below(10), 1 | 2 => 30 + rng.below(10), _ => 60 + rng.below(41) } as i64;
@@ -158,6 +162,60 @@ pub fn run(args: &[String]) {
     let _ = tick_handle.join();
     JITTER.store(false, Ordering::SeqCst);
     thread::sleep(Duration::from_millis(20));
+    // nothing is pending now: a key that reads as absent must not be rejected as already existing (no time-to-live in this mode)
+    let mut unreadable_but_present: Vec<u64> = Vec::new();
+    if nottl && !hung {
+        for k in 0..KEYS {
+            if cache.get(&SlowKey(k)).is_none() {
+                if let Ok(a) = cache.put_with_weight(SlowKey(k), 1, 5) {
+                    let deadline = Instant::now() + Duration::from_secs(10);
+                    while poll_ack(&a).is_none() && Instant::now() < deadline { thread::sleep(Duration::from_millis(1)); }
+                    if poll_ack(&a) == Some(5) { unreadable_but_present.push(k); }
+                }
+            }
+        }
+    }
+    // directed races, still under perturbation: delete(k) by one thread against "wait until k reads as absent, then put k
+    // until accepted" by another. When both are done and acknowledged, the accepted put must be readable.
+    let mut accepted_put_unreadable: Vec<u64> = Vec::new();
+    let mut race_rounds = 0u64;
+    if nottl && !hung {
+        let await_ack = |a: &Arc<tinylfu_cached::cache::command::acknowledgement::CommandAcknowledgement>| -> Option<i128> {
+            let deadline = Instant::now() + Duration::from_secs(10);
+            while poll_ack(a).is_none() && Instant::now() < deadline { thread::sleep(Duration::from_micros(20)); }
+            poll_ack(a)
+        };
+        for k in 0..KEYS { if let Ok(a) = cache.delete(SlowKey(k)) { let _ = await_ack(&a); } }
+        JITTER.store(true, Ordering::SeqCst);
+        let until = Instant::now() + Duration::from_millis(millis.min(1500));
+        let mut k = 1000u64;
+        while Instant::now() < until {
+            k += 1;
+            race_rounds += 1;
+            match cache.put_with_weight(SlowKey(k), 1, 5) { Ok(a) => { if await_ack(&a) != Some(1) { continue; } } Err(_) => continue }
+            let c1 = cache.clone();
+            let deleter = thread::spawn(move || c1.delete(SlowKey(k)).ok());
+            let c2 = cache.clone();
+            let putter = thread::spawn(move || {
+                let deadline = Instant::now() + Duration::from_secs(5);
+                while Instant::now() < deadline {
+                    if c2.get(&SlowKey(k)).is_none() {
+                        if let Ok(a) = c2.put_with_weight(SlowKey(k), 2, 5) {
+                            while poll_ack(&a).is_none() && Instant::now() < deadline { std::hint::spin_loop(); }
+                            if poll_ack(&a) == Some(1) { return true; }
+                        }
+                    }
+                }
+                false
+            });
+            let del_ack = deleter.join().ok().flatten();
+            let put_ok = putter.join().unwrap_or(false);
+            if let Some(a) = del_ack { let _ = await_ack(&a); }
+            if put_ok && cache.get(&SlowKey(k)) != Some(2) { accepted_put_unreadable.push(k); }
+            if let Ok(a) = cache.delete(SlowKey(k)) { let _ = await_ack(&a); }
+        }
+        JITTER.store(false, Ordering::SeqCst);
+    }
     // quiesce: delete every key and wait for the acknowledgements
     let mut final_total = i64::MIN;
     let mut keys_balance = i128::MIN;
@@ -173,7 +231,9 @@ pub fn run(args: &[String]) {
     }
     let panic_list: Vec<String> = panics.lock().unwrap().clone();
     println!("{}", J::obj(vec![
-        ("stress2", J::Bool(true)), ("upserts", J::Bool(upserts)), ("threads", J::I(threads as i128)), ("millis", J::I(millis as i128)), ("operations", J::I(total as i128)),
+        ("stress2", J::Bool(true)), ("upserts", J::Bool(upserts)), ("nottl", J::Bool(nottl)),
+        ("race_rounds", J::I(race_rounds as i128)), ("accepted_put_unreadable", J::A(accepted_put_unreadable.iter().take(5).map(|k| J::I(*k as i128)).collect())),
+        ("unreadable_but_present", J::A(unreadable_but_present.iter().map(|k| J::I(*k as i128)).collect())), ("threads", J::I(threads as i128)), ("millis", J::I(millis as i128)), ("operations", J::I(total as i128)),
         ("hung", J::Bool(hung)), ("min_total_seen", J::I(min_seen.load(Ordering::SeqCst) as i128)),
         ("max_total_seen", J::I(max_seen.load(Ordering::SeqCst) as i128)), ("cache_weight", J::I(100)),
         ("final_total", J::I(final_total as i128)), ("keys_balance", J::I(keys_balance)),
